@@ -898,22 +898,40 @@ def py_gates():
 
 
 def expected_reentries(tree, case, outcomes, G, root_has_stubs=False):
-    """packages alias resolution / wildcard expansion must ask for (closure over the dependency declarations of the layout)"""
+    """packages alias resolution / wildcard expansion must ask for, each as often as it is asked for: the algorithm of
+    _load_package / _post_load / resolve_aliases / expand_wildcards / resolve_module_aliases replayed over the dependency
+    declarations of the layout, with the gates of Gen/C15_ladder.v (a wildcard source that fails to load is asked for again
+    by every later expansion pass; an alias target that fails is remembered)"""
     o = case["opts"]
-    if not o["resolve_aliases"] and not root_has_stubs:
-        return []
     ext, implicit = o["resolve_external"], o["resolve_implicit"]
     deps = {p["name"]: p["deps"] for p in tree["pkgs"] if p["kind"] != "stubsonly"}
     if case["by"] == "hidden":
         deps[tree["root"]] = []      # what gets loaded is the stubs-only package
     has_top_source = {p["name"]: any(len(m["parts"]) == 1 and m["kind"] in ("init", "py", "initpyi", "pyi") for m in p["mods"]) for p in tree["pkgs"]}
+    own_stubs = {p["name"] for p in tree["pkgs"] if p["kind"] == "regular" and any(m["kind"] == "initpyi" and len(m["parts"]) == 1 for m in p["mods"])}
     root = tree["root"]
-    coll, failed, reqs = [root], set(), []
+    coll, reqs, expanded = [root], [], set()
 
     class Abort(Exception):
         pass
 
-    own_stubs = {p["name"] for p in tree["pkgs"] if p["kind"] == "regular" and any(m["kind"] == "initpyi" and len(m["parts"]) == 1 for m in p["mods"])}
+    def visible_deps(pkg):
+        # the import statements are only seen by the visitor (they sit under a false guard when inspection is involved)
+        return deps.get(pkg, []) if has_top_source.get(pkg) and not o["force_inspection"] else []
+
+    def expand(pkg, e, seen):
+        """expand_wildcards(pkg, external=e)"""
+        seen.add(pkg)
+        for d in visible_deps(pkg):
+            t = d["target"]
+            if not d["wild"] or (pkg, t) in expanded:
+                continue
+            if t != pkg and t not in coll:
+                if not G[(e, int(t == "_" + pkg), 0, 0, 0)][1] or not request(t):
+                    continue
+            if t not in seen:
+                expand(t, e, seen)
+            expanded.add((pkg, t))       # the wildcard member is replaced by what it imports
 
     def request(name):
         reqs.append(name)
@@ -921,52 +939,45 @@ def expected_reentries(tree, case, outcomes, G, root_has_stubs=False):
         if oc == "ok":
             coll.append(name)
             if name in own_stubs:      # the re-entered package has stubs: its own _load_package expands wildcards, re-entering load one level deeper
-                _wildcards(name, None, coll, request, visible_deps, G)
-        elif oc not in ("ModuleNotFoundError", "ImportError", "LoadingError"):
+                expand(name, None, set())
+            expand(name, False, set())     # _post_load
+            return True
+        if oc not in ("ModuleNotFoundError", "ImportError", "LoadingError"):
             raise Abort     # not swallowed: resolution stops here
-        return oc == "ok"
+        return False
 
-    def visible_deps(pkg):
-        # the import statements are only seen by the visitor (they sit under a false guard when inspection is involved)
-        return deps.get(pkg, []) if has_top_source.get(pkg) and not o["force_inspection"] else []
+    def expand_all():
+        n = -1
+        while n != len(coll):
+            n = len(coll)
+            for m in list(coll):
+                expand(m, ext, set())
     try:
         if root_has_stubs:     # _load_package expands the wildcards of the top module (external=None) before merging stubs
-            _wildcards(root, None, coll, request, visible_deps, G)
+            expand(root, None, set())
+        expand(root, False, set())
         if o["resolve_aliases"]:
-            _closure(root, ext, implicit, coll, failed, reqs, request, visible_deps, G)
+            expand_all()
+            failed, done, prev, unresolved, progress = set(), set(), set(), {"0"}, False
+            while unresolved and (progress or unresolved != prev):
+                prev, unresolved, now, n = unresolved - {"0"}, set(), False, len(coll)
+                for pkg in list(coll):
+                    for d in visible_deps(pkg):
+                        t = d["target"]
+                        if d["wild"] or (pkg, t) in done or (not implicit and not d["exported"]):
+                            continue
+                        if t in coll:
+                            done.add((pkg, t))
+                            now = True
+                            continue
+                        unresolved.add((pkg, t))
+                        if G[(ext, int(t == "_" + pkg), int(t in failed), int(t == pkg), 0)][0] and not request(t):
+                            failed.add(t)
+                progress = now or len(coll) != n
+                if len(coll) != n:
+                    expand_all()
     except Abort:
         pass
-    return reqs
-
-
-def _wildcards(root, ext, coll, request, visible_deps, G):
-    for d in visible_deps(root):
-        if d["wild"]:
-            t = d["target"]
-            if G[(ext, int(t == "_" + root), 0, int(t == root), int(t in coll))][1]:
-                request(t)
-
-
-def _closure(root, ext, implicit, coll, failed, reqs, request, visible_deps, G):
-    _wildcards(root, ext, coll, request, visible_deps, G)
-    resolved, prev, unresolved = set(), None, {"0"}
-    while unresolved and unresolved != prev:
-        prev = unresolved - {"0"}
-        unresolved = set()
-        for pkg in list(coll):
-            for d in visible_deps(pkg):
-                if d["wild"] or (pkg, d["target"]) in resolved:
-                    continue
-                if not implicit and not d["exported"]:
-                    continue
-                t = d["target"]
-                if t in coll:
-                    resolved.add((pkg, t))
-                    continue
-                unresolved.add((pkg, t))
-                if G[(ext, int(t == "_" + pkg), int(t in failed), int(t == pkg), int(t in coll))][0]:
-                    if not request(t):
-                        failed.add(t)
     return reqs
 
 
